@@ -204,3 +204,12 @@ Proof.
   intros P Hs. unfold check_write_cmd. eapply ceq_bind; [apply check_write_assertions_perm; eassumption|].
   intros a b E. subst b. cbn. reflexivity.
 Qed.
+
+(* ------------------------------------------------------------------ 4. a function of the loaded journal *)
+
+Lemma check_write_factor sds : check_write_cmd sds = cbind (load sds) check_write_of.
+Proof.
+  unfold check_write_cmd, check_write_assertions, check_write_of.
+  destruct (load sds) as [b|k d|m]; cbn [cbind]; try reflexivity.
+  destruct (run_stage check_write_proc wstate_init (b_days b)) as [r|k d|m]; reflexivity.
+Qed.
